@@ -799,6 +799,17 @@ def vary_grid():
     return out
 
 
+def maxsegs_grid():
+    """DeviceInfo.maxSegmentsAccepted is a NUMBER read from the peer's device object, not one of
+    the header's code points: 3, 5, 33, 65, 100, 200 with segment counts on both sides"""
+    out = []
+    for ms in (3, 5, 33, 65, 100, 200):
+        for delta in (-1, 0, 1, 2):
+            for m in (50, 128):
+                out.append(("S", ms, ms + delta, m))
+    return out
+
+
 def long_grid(quick):
     """transfers of more than 256 segments (the wire sequence number wraps), both directions,
     own proposal 16, the receiver grants a smaller window"""
@@ -941,6 +952,11 @@ def shard(ctx, spec):
             else:
                 hdr = {"maxResp": {50: 0, 128: 1}[m], "maxSegs": 7, "sa": 1}
                 locks.append(server_scenario(ctx, "vary-s-%d" % idx, dict(cfg), None, hdr, (m - 5) * nseg - 3, rng, vary=True))
+        elif it[0] == "S":
+            _s, ms, count, m = it
+            cfg.update(seg=3, window=rng.choice([4, 16]), maxSegs=None, maxApdu=1476)
+            di = {"maxApdu": m, "seg": 3, "maxSegs": ms, "maxNpdu": None}
+            locks.append(client_scenario(ctx, "maxsegs-%d" % idx, dict(cfg), di, (m - 6) * count - 3, rng, fixed_win=8))
         elif it[0] == "G":
             _g, nseg, role, grant = it
             cfg.update(seg=3, window=16, maxSegs=None, maxApdu=1024)
@@ -1027,8 +1043,21 @@ def e2e_shard(ctx, items):
                 key = (dst, 0 if h["srv"] else 3, h["invoke"])
                 if key in flights:
                     flights[key].acked(h["seq"], h["win"])
+        if sc.get("expect_req"):
+            nseg = sum(len(ss) for (dst, t, inv), ss in segs.items() if t == 0)
+            outcome0 = (res["conf"][0][1], res["conf"][0][3]) if res["conf"] else ("none", None)
+            if sc["expect_req"] == "abort11" and (nseg or outcome0 != ("abort", 11)):
+                bad.append(("cannot-send", "the peer's device object says it accepts %d segments, the request needs more: "
+                            "%d request segments on the wire, outcome %r (expected abort apduTooLong)" % (
+                                sc["b"]["max_segs"], nseg, outcome0)))
+            if sc["expect_req"] == "ack" and outcome0[0] != "ack":
+                bad.append(("cannot-send", "a request of exactly the %d segments the peer accepts ended in %r" % (
+                    sc["b"]["max_segs"], outcome0)))
         for (dst, t, inv), ss in segs.items():
             ms = cap[dst].get("max_segs")
+            if t == 0 and sc.get("know") and ms and len(ss) > ms:
+                bad.append(("segments-bound", "%d request segments toward a stack whose device object accepts %d" % (len(ss), ms)))
+                continue
             # a response is bounded by the request header (the receiver's own setting, encoded);
             # a request by the record the sender holds (only when `know` taught it)
             if ms and ms <= 64 and (t == 3 or sc.get("know")) and len(ss) > ms:
@@ -1119,6 +1148,12 @@ def e2e_cases(ctx, rng):
                                     "window": rng.choice([1, 2, 5, 127])},
                               "b": {"max_apdu": mb, "seg": sb, "max_segs": msb, "seg_timeout": 1500,
                                     "window": rng.choice([1, 2, 5, 127])}})
+    # B's Max_Segments_Accepted is a number that is not a code point of the header; A knows it
+    for ms in (3, 5, 33, 100):
+        for count in (ms, ms + 1):
+            cases.append({"clen": 44 * count - 40, "slen": 5, "mode": "ack", "know": True, "expect_req": "ack" if count <= ms else "abort11",
+                          "a": {"max_apdu": 1476, "seg": SEGN[3], "max_segs": 64, "seg_timeout": 1500, "window": 16},
+                          "b": {"max_apdu": 50, "seg": SEGN[3], "max_segs": ms, "seg_timeout": 1500, "window": 16}})
     # first segment / first ack lost, sender's window >> receiver's
     for (wa, wb) in ((8, 1), (127, 1), (16, 2), (1, 8)):
         for drop in (0, 1, 2):
@@ -1304,9 +1339,83 @@ def app_cache_probe(ctx):
     helper.vt.reset(T.START)
 
 
+def iocb_abort_probe(ctx):
+    """cannot-send through the IOCB entry point: a request made with
+    ApplicationIOController.request_io() that exceeds what the peer announced (no
+    segmentation / too many segments / no room) is aborted; the REQUESTER must learn of it
+    whichever way it listens: callback attached BEFORE request_io(), attached right AFTER it
+    returned, attached after the event loop ran, or polling ioComplete / ioState / ioError."""
+    from bacpypes.comm import bind, Server
+    from bacpypes.pdu import Address
+    from bacpypes import app as APP, appservice as AS, iocb as IO
+    from bacpypes.apdu import ConfirmedRequestPDU
+    from bacpypes.local.device import LocalDeviceObject
+    helper = T.Lock(T.default_cfg(), [])
+
+    class Net(Server):
+        def __init__(self):
+            Server.__init__(self)
+            self.sent = []
+
+        def indication(self, pdu):
+            self.sent.append(pdu)
+
+    n = 0
+    for why, max_apdu, seg_code, maxsegs, size, reason in (
+            ("peer announced no segmentation", 50, 3, None, 113, 4),
+            ("peer accepts 3 segments, 4 needed", 50, 0, 3, 44 * 4 - 3, 11),
+            ("peer accepts 100 segments, 101 needed", 50, 0, 100, 44 * 101 - 3, 11)):
+        for variant in ("callback-before", "callback-after-request_io", "callback-after-loop", "polling"):
+            n += 1
+            case = {"probe": "iocb-abort", "why": why, "variant": variant}
+            dev = LocalDeviceObject(objectName="io%d" % n, objectIdentifier=("device", 700 + n), maxApduLengthAccepted=1476,
+                                    segmentationSupported="segmentedBoth", maxSegmentsAccepted=64, vendorIdentifier=999)
+            a = APP.ApplicationIOController(dev)
+            asap = AS.ApplicationServiceAccessPoint()
+            smap = AS.StateMachineAccessPoint(dev)
+            smap.deviceInfoCache = a.deviceInfoCache
+            net = Net()
+            bind(a, asap, smap, net)
+            peer = Address(60 + n)
+            a.deviceInfoCache.iam_device_info(helper.decode_iam(helper.iam_octets(800 + n, max_apdu, seg_code), peer))
+            a.deviceInfoCache.get_device_info(peer).maxSegmentsAccepted = maxsegs
+            req = ConfirmedRequestPDU(200)
+            req.pduDestination = peer
+            req.put_data(pattern(size))
+            iocb = IO.IOCB(req)
+            told = []
+            cb = lambda i: told.append((i.ioState, getattr(i.ioError, "apduAbortRejectReason", None)))
+            if variant == "callback-before":
+                iocb.add_callback(cb)
+            a.request_io(iocb)
+            if variant == "callback-after-request_io":
+                iocb.add_callback(cb)
+            helper.vt.run(until=helper.vt.now + 0.1)
+            if variant == "callback-after-loop":
+                iocb.add_callback(cb)
+                helper.vt.run(until=helper.vt.now + 0.1)
+            data = [p for p in net.sent if getattr(p, "apduType", None) == 0]
+            if data:
+                ctx.fail("cannot-send", case, "%s: %d request frame(s) went out instead of an abort" % (why, len(data)))
+                continue
+            if variant == "polling":
+                ok = iocb.ioComplete.isSet() and iocb.ioState == IO.ABORTED and \
+                    getattr(iocb.ioError, "apduAbortRejectReason", None) == reason
+                if not ok:
+                    ctx.fail("requester-not-told", case, "%s: polling the IOCB shows ioComplete=%s ioState=%s ioError=%r instead of an "
+                             "abort %d" % (why, iocb.ioComplete.isSet(), iocb.ioState, iocb.ioError, reason))
+            elif told != [(IO.ABORTED, reason)]:
+                ctx.fail("requester-not-told", case, "%s: the request was aborted (ioState=%s, reason %r) but the requester's callback "
+                         "(%s) was called %d time(s): %r" % (why, iocb.ioState, getattr(iocb.ioError, "apduAbortRejectReason", None),
+                                                           variant, len(told), told))
+            ctx.count("iocb-abort-probe", (why, variant))
+    helper.vt.reset(T.START)
+
+
 def run(ctx):
     iam_probe(ctx)
     app_cache_probe(ctx)
+    iocb_abort_probe(ctx)
     for name, c in corpus_cases():
         if c.get("op") == "cache":
             cache_shard(ctx, [c["ops"]])
@@ -1331,6 +1440,9 @@ def run(ctx):
     specs.append(("window", wins))
     specs.append(("loss", list(enumerate(loss_grid()))))
     specs.append(("vary", list(enumerate(vary_grid()))))
+    mg = list(enumerate(maxsegs_grid()))
+    for i in range(4):
+        specs.append(("maxsegs", mg[i::4]))
     lg = list(enumerate(long_grid(ctx.quick)))
     for i in range(4):
         if lg[i::4]:
@@ -1378,6 +1490,9 @@ def replay(ctx, payload):
         return
     if isinstance(case, dict) and case.get("op") == "cache":
         cache_shard(ctx, [case["ops"][:case.get("upto", len(case["ops"]))]])
+        return
+    if isinstance(case, dict) and case.get("probe") == "iocb-abort":
+        iocb_abort_probe(ctx)
         return
     if isinstance(case, dict) and case.get("probe") == "app-cache":
         app_cache_probe(ctx)
